@@ -28,8 +28,23 @@ Fixpoint d_sessions (max : nat) (file : fs) (ss : list session) : list val :=
 Definition d_spec_stored (max : nat) (file : fs) (qs : list str) : val :=
   vstrs (stored_after max (entries (match file with None => [] | Some d => d end)) qs).
 
+(* 1804: navigation SPEC (array of texts with a cursor): [entries, ops] -> strings shown by each previous/next *)
+Fixpoint spec_nav_run (n : nav) (ops : list sop) : list str :=
+  match ops with
+  | [] => []
+  | o :: r =>
+      let n' := nav_step n (match o with Edit s => NEdit s | Prev => NPrev | Next => NNext end) in
+      match o with
+      | Edit _ => spec_nav_run n' r
+      | _ => nv_text n' (nv_cur n') :: spec_nav_run n' r
+      end
+  end.
+Definition spec_nav (es : list str) (ops : list sop) : list str :=
+  spec_nav_run (mkNav (fun i => nth i es []) (length es) (length es)) ops.
+
 Definition dispatch_history (op : Z) (a : val) : option val :=
   if op =? 1801 then Some (VL (d_sessions (as_nat (arg a 0)) (as_fs (arg a 1)) (map as_session (as_list (arg a 2)))))
   else if op =? 1802 then Some (d_spec_stored (as_nat (arg a 0)) (as_fs (arg a 1)) (as_strs (arg a 2)))
   else if op =? 1803 then Some (vstrs (entries (as_str a)))
+  else if op =? 1804 then Some (vstrs (spec_nav (as_strs (arg a 0)) (map as_sop (as_list (arg a 1)))))
   else None.
